@@ -6,7 +6,7 @@
    final child state) is compared exactly with the observation of the external run, and the property's
    clauses are evaluated directly on the observation. *)
 From Coq Require Import List Bool Arith ZArith QArith String.
-From Ropt Require Import Base.Num Base.ListX Model.Pipe Gen.Generated.
+From Ropt Require Import Base.Num Base.ListX Model.Framing Model.Pipe Gen.Generated.
 Import ListNotations.
 Local Open Scope string_scope.
 Local Open Scope list_scope.
@@ -35,11 +35,20 @@ Record case := {
   c_leftovers : nat;                (* files left in the FIFO directory *)
   c_stray : nat;                    (* evaluator calls / results outside any callback *)
   c_files_ok : bool;                (* optimizer.stdout / stderr files exist where configured, in both runs *)
-  c_framing_ok : bool;              (* framing probe: every message fed to _JSONPipeCommunicator.read through a real FIFO in
-                                       pieces (cut at every offset, at multiples of the pipe capacity) came back exactly;
-                                       the model starts above the framing: "FIFOs deliver whole messages" *)
+  c_framing : list (list (list (nat * nat)) * list (list (list (nat * nat))));
+                                    (* framing probe: per feed, the pieces written into a real FIFO and, per piece, the
+                                       messages the real _JSONPipeCommunicator.read returned when polled until None
+                                       (byte codes, run-length encoded); compared with Model/Framing.v's reader *)
   c_wall_ms : Z
 }.
+
+(* ---- framing: the model reader (Model/Framing.v, bytes as nat, newline = 10, delimiter "--READY--") on the probe's feeds *)
+Definition expand (r : list (nat * nat)) : list nat := flat_map (fun p => repeat (fst p) (snd p)) r.
+Definition delim_bytes : list nat := [45; 45; 82; 69; 65; 68; 89; 45; 45]%nat.
+Definition framing_agrees (f : list (list (nat * nat)) * list (list (list (nat * nat)))) : bool :=
+  list_eqb (list_eqb (list_eqb Nat.eqb))
+           (Model.Framing.run_trace nat Nat.eq_dec 10%nat delim_bytes [] (map expand (fst f)))
+           (map (map expand) (snd f)).
 
 (* the run must end within _PROCESS_TIMEOUT + this many seconds (the machine may be heavily loaded; a hang is
    unbounded, so any bound shows it) *)
@@ -171,7 +180,7 @@ Definition model_agrees (c : case) : bool :=
 
 (* ---- the property's clauses on the observation alone -------------------------------------------- *)
 Definition property_holds (c : case) : bool :=
-  c_cfg_rt c && c_child_started c && Nat.eqb (c_stray c) 0 && c_files_ok c && c_framing_ok c &&
+  c_cfg_rt c && c_child_started c && Nat.eqb (c_stray c) 0 && c_files_ok c && forallb framing_agrees (c_framing c) &&
   (* (a) no fault: same callbacks, evaluations, results, exit code, optimum *)
   (faulted c ||
    (list_eqb exchange_eqb (c_ext c) (c_inproc c) && same_outcome (c_ext_out c) (c_inproc_out c) &&
